@@ -33,6 +33,13 @@ def _table_viol(prop):
     return f
 
 
+def _abs_viol(res):
+    """The grammar the tables were built from is not the grammar that was written: every
+    language oracle works on the built grammar, so this is reported with the language properties."""
+    return [dict(stage="tables", id=r["id"], what=r["absdiff"][:6], kind="built_grammar")
+            for r in res["tables"]["verdicts"] if r.get("absdiff")]
+
+
 def _wf_viol(res, prop):
     v = []
     for r in res["tables"]["wf"]:
@@ -181,13 +188,14 @@ PROPS = {
     "C06": dict(stages=["lex"], viol=_c06_viol),
     "C05": dict(stages=["tables", "resolve", "prec"], viol=_c05_viol),
     "C01": dict(stages=["tables", "lr", "mci_lr"],
-                viol=lambda res: _trace_viol(res, "lr", "c01") + _mci_viol(res, "mci_lr", "C01") + _replay_viol(res, "c01")),
+                viol=lambda res: _trace_viol(res, "lr", "c01") + _mci_viol(res, "mci_lr", "C01") + _replay_viol(res, "c01")
+                + _abs_viol(res)),
     "C02": dict(stages=["tables", "lr", "mci_lr"],
                 viol=lambda res: _trace_viol(res, "lr", "c02") + _mci_viol(res, "mci_lr", "C02") + _replay_viol(res, "c02")
                 + _wf_viol(res, "C02")),
     "C03": dict(stages=["tables", "glr", "mci_glr"],
                 viol=lambda res: _trace_viol(res, "glr", "c03") + _table_viol("C03")(res)
-                + _mci_viol(res, "mci_glr", "C03")),
+                + _mci_viol(res, "mci_glr", "C03") + _abs_viol(res)),
     "C07": dict(stages=["tables", "glr", "lex"],
                 viol=lambda res: _trace_viol(res, "glr", "c07")
                 + [dict(stage="lex", id=r["id"], iid=r["iid"], what=r["c07"][:4], kind="lex_c07")
